@@ -2,6 +2,7 @@ package main
 
 import (
 	"fmt"
+	"math"
 
 	"github.com/emirpasic/gods/v2/queues/circularbuffer"
 	"github.com/emirpasic/gods/v2/trees/btree"
@@ -47,6 +48,18 @@ func makeSys(c string, j Job) Sys {
 		}
 		return intListSys(c, n, u)
 	case "hashset", "linkedhashset", "treeset":
+		if deep && c == "linkedhashset" {
+			return &SetSys[Val]{Kind: c, CmpN: "nat", Absent: -5, Poison: -99, Cmp: func(a, b Val) int { return int(a - b) }, N: n,
+				Gen: func(i int) Val { return Val(i) }}
+		}
+		if j.s("elem", "") == "float" && c != "treeset" {
+			// an element type with non-reflexive equality: every NaN is its own member and can never be
+			// found or removed again — except by Clear
+			nan := math.NaN()
+			fc := func(a, b float64) int { return anyCmp(a, b) }
+			return &SetSys[float64]{Kind: c, CmpN: "nat", U: []float64{0, 1.5, nan}, Absent: 7.25, Poison: -99, Cmp: fc,
+				Tuples: [][]int{{}, {0}, {1}, {2}, {0, 2}, {2, 2}, {1, 2, 0}}, MaxSize: 4}
+		}
 		if c == "treeset" && j.p("rank", 0) == 1 {
 			jj := j
 			jj.S = map[string]string{"c": c, "cmp": cmpN}
@@ -76,6 +89,10 @@ func makeSys(c string, j Job) Sys {
 		}
 		return heSysIDs(c, hc, n, j.p("pmax", 2), j.p("jsonlen", 2), j.p("ids", 2))
 	case "hashmap", "treemap", "linkedhashmap", "hashbidimap", "treebidimap", "rbt", "avl", "btree":
+		if deep && c == "linkedhashmap" {
+			return &KVSys[Val, Val]{Kind: c, CmpN: "nat", N: n, Pos: true, Fresh: func(i int) Val { return Val(i) },
+				KCmp: func(a, b Val) int { return int(a - b) }, VCmp: func(a, b Val) int { return int(a - b) }, PropsL: kvProps}
+		}
 		if str {
 			ku := strU(u)
 			// values drawn from the key alphabet ("values that contain text equal to keys")
@@ -102,6 +119,8 @@ func pureSys(s Sys) Sys {
 	case *KVSys[string, string]:
 		x.NoCount = true
 	case *KVSys[string, Val]:
+		x.NoCount = true
+	case *KVSys[Val, Val]:
 		x.NoCount = true
 	}
 	return s
